@@ -1371,15 +1371,17 @@ func (m *NetworkMachine) updateClock(
 			Args:   nil,
 			IsAuto: false,
 		},
-		LogEntries:    m.logEntries,
 		TargetIndexes: m.Index(activeNow),
 	}
+	m.logEntriesLock.Lock()
+	tx.LogEntries = m.logEntries
+	m.logEntries = nil
+	m.logEntriesLock.Unlock()
 	tx.IsCompleted.Store(true)
 	tx.IsSettled.Store(true)
 	// TODO may not be true for qTicks-only updates
 	tx.IsAccepted.Store(true)
 	m.t.Store(tx)
-	m.logEntries = nil
 
 	// call tracers
 	for _, t := range m.tracers {
